@@ -186,11 +186,21 @@ func (r *R) state(ctx sdk.Context) string {
 		}
 	}
 	sort.Strings(sups)
+	// the second index of the registry: GetPoolByLptDenom for every sequence handed out so far
+	var lpts []string
+	for i := uint64(1); i < gs.Sequence && i < 64; i++ {
+		cp := "?"
+		if pl, ok := k.GetPoolByLptDenom(ctx, cstypes.GetLptDenom(i)); ok {
+			cp = pl.CounterpartyDenom
+		}
+		lpts = append(lpts, fmt.Sprintf("%s:%s", cstypes.GetLptDenom(i), cp))
+	}
 	p := gs.Params
-	return fmt.Sprintf("now=%d seq=%d std=%s fee=%s tax=%s ufee=%s pcf=%s pools=%s bal=%s sup=%s",
+	return fmt.Sprintf("now=%d seq=%d std=%s fee=%s tax=%s ufee=%s pcf=%s pools=%s bal=%s sup=%s lpts=%s",
 		ctx.BlockTime().UnixNano(), gs.Sequence, gs.StandardDenom, p.Fee.BigInt().String(), p.TaxRate.BigInt().String(),
 		p.UnilateralLiquidityFee.BigInt().String(), coinStr(p.PoolCreationFee),
-		hx.Dash(strings.Join(pools, ",")), hx.Dash(strings.Join(bals, ",")), hx.Dash(strings.Join(sups, ",")))
+		hx.Dash(strings.Join(pools, ",")), hx.Dash(strings.Join(bals, ",")), hx.Dash(strings.Join(sups, ",")),
+		hx.Dash(strings.Join(lpts, ",")))
 }
 
 // genesisLine renders the real exported genesis in its own order.
